@@ -24,6 +24,7 @@ func TestReplay_Front(t *testing.T) {
 	frontReplay("TestProp_C17_Inbound", runC17In)
 	frontReplay("TestProp_C09_ManyNonces", runC09)
 	frontReplay("TestProp_C18_GlobalReload", runC18G)
+	frontReplay("TestProp_C18_RateReload", runC18R)
 	frontReplay("TestProp_C15_PolicyReload", runC18G)
 	frontReplay("TestProp_C04_TransportParity", tpRun("C04"))
 	frontReplay("TestProp_C05_TransportParity", tpRun("C05"))
